@@ -42,35 +42,46 @@ structure StepInv (s s' : PS) : Prop where
   mono : s.pos ≤ s'.pos
   bound : s.pos ≤ s.toks.length → s'.pos ≤ s.toks.length
   adv : advsL s.out + (s'.pos - s.pos) ≤ advsL s'.out
+  /-- as long as the cursor has not reached the end: exactly one `Advance` per token consumed -/
+  exact : s'.isEof = false → advsL s'.out = advsL s.out + (s'.pos - s.pos)
 
-theorem StepInv.refl (s : PS) : StepInv s s := ⟨rfl, Nat.le_refl _, id, by omega⟩
+theorem StepInv.refl (s : PS) : StepInv s s := ⟨rfl, Nat.le_refl _, id, by omega, fun _ => by omega⟩
 
 theorem StepInv.trans {a b c : PS} (h1 : StepInv a b) (h2 : StepInv b c) : StepInv a c := by
-  refine ⟨h2.toks.trans h1.toks, Nat.le_trans h1.mono h2.mono, ?_, ?_⟩
+  refine ⟨h2.toks.trans h1.toks, Nat.le_trans h1.mono h2.mono, ?_, ?_, ?_⟩
   · intro h; have := h1.bound h; have := h2.bound (by rw [h1.toks]; exact this); rw [h1.toks] at this; exact this
   · have := h1.adv; have := h2.adv; have := h1.mono; have := h2.mono; omega
+  · intro hc
+    have hb : b.isEof = false := by
+      simp only [PS.isEof, decide_eq_false_iff_not, Nat.not_le] at hc ⊢
+      have := h2.mono; have := congrArg List.length h2.toks; omega
+    have := h1.exact hb; have := h2.exact hc; have := h1.mono; have := h2.mono; omega
 
 /-- a step that only changes registers (`out`, `pos`, `toks` kept) -/
 theorem StepInv.of_eq {s s' : PS} (ht : s'.toks = s.toks) (hp : s'.pos = s.pos) (ho : s'.out = s.out) : StepInv s s' :=
-  ⟨ht, by omega, by intro h; omega, by rw [ho, hp]; omega⟩
+  ⟨ht, by omega, by intro h; omega, by rw [ho, hp]; omega, fun _ => by rw [ho, hp]; omega⟩
 
 theorem look_inv (s : PS) (n : Nat) : StepInv s (look s n).2 := by
   unfold look; split <;> exact StepInv.of_eq rfl rfl rfl
 
 theorem doAdvance_inv (s : PS) : StepInv s (doAdvance s) := by
-  refine ⟨rfl, ?_, ?_, ?_⟩ <;> simp only [doAdvance, emit, bump]
+  refine ⟨rfl, ?_, ?_, ?_, ?_⟩ <;> simp only [doAdvance, emit, bump]
   · split <;> omega
   · intro h; split <;> omega
   · simp only [advsL_append, advsL, advs]; split <;> omega
+  · simp only [PS.isEof, decide_eq_false_iff_not, Nat.not_le, advsL_append, advsL, advs]
+    intro h; split at h <;> split <;> omega
 
 theorem doAdvErr_inv (s : PS) (m : String) : StepInv s (doAdvErr s m) := by
-  refine ⟨rfl, ?_, ?_, ?_⟩ <;> simp only [doAdvErr, emit, bump]
+  refine ⟨rfl, ?_, ?_, ?_, ?_⟩ <;> simp only [doAdvErr, emit, bump]
   · split <;> omega
   · intro h; split <;> omega
   · simp only [advsL_append, advsL, advs]; split <;> omega
+  · simp only [PS.isEof, decide_eq_false_iff_not, Nat.not_le, advsL_append, advsL, advs]
+    intro h; split at h <;> split <;> omega
 
-theorem emit_inv (s : PS) (i : Item) : StepInv s (emit s i) :=
-  ⟨rfl, Nat.le_refl _, id, by simp [emit, advsL_append]⟩
+theorem emit_inv (s : PS) (m : String) : StepInv s (emit s (.err m)) :=
+  ⟨rfl, Nat.le_refl _, id, by simp [emit, advsL_append], fun _ => by simp [emit, advsL_append, advsL, advs]⟩
 
 theorem expectK_inv (s : PS) (k : Nat) : StepInv s (expectK s k) := by
   unfold expectK
@@ -85,13 +96,20 @@ theorem expectK_inv (s : PS) (k : Nat) : StepInv s (expectK s k) := by
 theorem node_inv {s s1 : PS} {f : List Item → List Item} (h : StepInv { s with out := [] } s1)
     (hf : advsL (f s1.out) = advsL s.out + advsL s1.out) (s2 : PS)
     (h2t : s2.toks = s1.toks) (h2p : s2.pos = s1.pos) (h2o : s2.out = f s1.out) : StepInv s s2 := by
-  refine ⟨h2t.trans h.toks, by rw [h2p]; exact h.mono, by intro hb; rw [h2p]; exact h.bound hb, ?_⟩
-  have := h.adv
-  simp only [advsL] at this
-  rw [h2o, hf, h2p]
-  have hm := h.mono
-  simp only at hm this
-  omega
+  refine ⟨h2t.trans h.toks, by rw [h2p]; exact h.mono, by intro hb; rw [h2p]; exact h.bound hb, ?_, ?_⟩
+  · have := h.adv
+    simp only [advsL] at this
+    rw [h2o, hf, h2p]
+    have hm := h.mono
+    simp only at hm this
+    omega
+  · intro he
+    have he1 : s1.isEof = false := by
+      simp only [PS.isEof, h2t, h2p] at he ⊢; exact he
+    have := h.exact he1
+    simp only [advsL] at this
+    rw [h2o, hf, h2p]
+    omega
 
 theorem execS_inv (callF : Fn → PS → PS) (hc : ∀ f s, StepInv s (callF f s)) :
     ∀ (st : Stmt) (s : PS), StepInv s (execS callF st s) := by
@@ -100,7 +118,7 @@ theorem execS_inv (callF : Fn → PS → PS) (hc : ∀ f s, StepInv s (callF f s
   | skip => intro s; exact StepInv.refl s
   | seq a b iha ihb => intro s; exact (iha s).trans (ihb _)
   | adv => intro s; exact doAdvance_inv s
-  | err m => intro s; exact emit_inv s _
+  | err m => intro s; exact emit_inv s m
   | advErr m => intro s; exact doAdvErr_inv s m
   | advErrDbg p => intro s; exact doAdvErr_inv s _
   | expect k => intro s; exact expectK_inv s k
